@@ -643,7 +643,7 @@ class IntermediateCodeGen(AbstractCodeGen):
                 )
 
             else:
-                hexval = binval and hex(int(binval, 2))[2:] or ''
+                hexval = binval and '%0*x' % ((len(binval) + 7) // 8 * 2, int(binval, 2)) or ''
                 outDict.update(value=hexval, format='hex')
 
         # quoted string
